@@ -35,6 +35,15 @@ fn main() {
         props::c03::long_worker(args.get(2).map(|s| s.as_str()).unwrap_or("/dev/null"), n, only);
         std::process::exit(0);
     }
+    if args.get(1).map(|s| s.as_str()) == Some("--vocab-report") {
+        for l in t2n_verif::util::LANGS {
+            let v = t2n_verif::gen::vocab_of(l);
+            let raw = t2n_verif::spell::vocab::common_words_raw(l);
+            let dropped: Vec<&str> = raw.iter().copied().filter(|w| !v.fillers.contains(w)).collect();
+            println!("{}: {} ordinary words ({} everyday words kept), {} number words, {} linking words; dropped as number/linking/known: {:?}", l, v.fillers.len(), v.common.len(), v.number_words.len(), v.linking.len(), dropped);
+        }
+        return;
+    }
     let mut i = 1;
     while i < args.len() {
         match args[i].as_str() {
